@@ -41,7 +41,7 @@ const (
 	// a late (not blocked) call is only judged when none of the canary goroutines woke up more than this late while it ran
 	loadLimit = 100 * time.Millisecond
 	// a call still blocked 3 s past its deadline is judged unless the canaries were this late (the process was frozen)
-	frozenLimit = time.Second
+	frozenLimit = 250 * time.Millisecond
 	nCanaries   = 4
 )
 
